@@ -164,6 +164,10 @@ func (a *AvailableCommands) Decode(c *proto.PacketContext, rd io.Reader) error {
 		wireNodes = append(wireNodes, wn)
 	}
 
+	if err = validateChildGraph(wireNodes); err != nil {
+		return err
+	}
+
 	var ok bool
 	queue := append([]*WireNode{}, wireNodes...) // copy
 	// Iterate over the deserialized nodes and attempt to form a graph.
@@ -204,6 +208,49 @@ func (a *AvailableCommands) Decode(c *proto.PacketContext, rd io.Reader) error {
 	a.RootNode, ok = built.(*brigodier.RootCommandNode)
 	if !ok {
 		return fmt.Errorf("built node type is not *RootCommandNode (%T)", built)
+	}
+	return nil
+}
+
+// validateChildGraph rejects child lists that point outside the node list or form a
+// cycle. Children form a tree in a well-formed packet (only redirects may point
+// back up); a cycle among children makes the merge in AddChild, and every later walk
+// over the tree, recurse without end, which is a fatal stack overflow and not a panic.
+func validateChildGraph(wireNodes []*WireNode) error {
+	const (
+		unseen = iota
+		open
+		done
+	)
+	state := make([]byte, len(wireNodes))
+	type frame struct{ node, next int }
+	for start := range wireNodes {
+		if state[start] != unseen {
+			continue
+		}
+		state[start] = open
+		stack := []frame{{node: start}}
+		for len(stack) != 0 {
+			top := &stack[len(stack)-1]
+			children := wireNodes[top.node].Children
+			if top.next == len(children) {
+				state[top.node] = done
+				stack = stack[:len(stack)-1]
+				continue
+			}
+			child := children[top.next]
+			top.next++
+			if child < 0 || child >= len(wireNodes) {
+				return fmt.Errorf("node points to non-existent index %d (max=%d)", child, len(wireNodes))
+			}
+			switch state[child] {
+			case open:
+				return fmt.Errorf("children of command node %d form a cycle", child)
+			case unseen:
+				state[child] = open
+				stack = append(stack, frame{node: child})
+			}
+		}
 	}
 	return nil
 }
